@@ -16,7 +16,7 @@ SPEC = {
         ('K-upsert(a placeholder taken over by a live candidate is ordered like a new entry)', 'upsert', '^debug:'),
         ("_match_states(stopped entries are never expanded)", 'match_states', r'^select:'),
         ("non-emitting search(stopped marking only under debug; only live entries continued)", 'ne_end', r'^(debug:|ne-end:only-live)'),
-        ("non-emitting search, inner levels(stopped candidates are not known states; only live entries continued)", 'ne_inner', r'^(debug:stopped|ne-inner:only-live)'),
+        ("non-emitting search, inner levels(stopped candidates are not known states; only live entries continued)", 'ne_inner', r'^(debug:(stopped|placeholder)|ne-inner:only-live)'),
         ("_build_node_path(a stopped entry is never chosen)", 'final_choice', r'live'),
         ("match(only non-stopped entries count as solutions; early stop at 0 returns ([],0))", 'match', r'^(loop:(early-stop|continues)|result:empty)')],
     'bounded': [
